@@ -47,6 +47,7 @@ SigF22(pre, cx1, ev, res, post, cx2, pred) ==
 \* F26: copying / moving a non-identifiable container whose nested identifiable elements collide with existing paths
 \* (only the copied / moved element itself is renamed for uniqueness)
 SigF26(pre, cx1, ev, res, post, cx2, pred) ==
+  /\ pred \in {"IdxExact", "PathsUnique", "LookupExact", "ReportExact", "ReportIffUnresolvable", "FileTextExact"}
   /\ ev.op \in {"Copy", "Move"} /\ res.t = "ok"
   /\ ~P!TIdent(post, res.v)
   /\ LET m == P!ModelOf(post, cx2, res.v)
@@ -55,6 +56,7 @@ SigF26(pre, cx1, ev, res, post, cx2, pred) ==
 
 \* F29: duplicate() of a model whose files have different versions copies everything with the oldest version
 SigF29(pre, cx1, ev, res, post, cx2, pred) ==
+  /\ pred \in {"DuplicateSameText", "MembershipWithinParent", "FileTextExact", "EveryElementWritten"}
   /\ ev.op = "Duplicate" /\ res.t = "ok"
   /\ \E i, j \in 1..Len(pre.models[ev.m].files) : pre.f[pre.models[ev.m].files[i]].ver # pre.f[pre.models[ev.m].files[j]].ver
 
